@@ -31,6 +31,8 @@ pub fn voronoi(v: &Voronoi) -> String {
         ));
     }
     s.push_str(&format!(" CONN {}", crate::proto::list(v.cell_face_connections())));
+    // what the tessellation reports about its own box
+    s.push_str(&format!(" META {} {} {} {}", v3(v.anchor()), v3(v.width()), v.dimensionality(), v.periodic() as u8));
     s
 }
 
